@@ -620,6 +620,7 @@ func (s *wsDecoderServer) realWSDecode(e WSEnv) string {
 						}
 						return c
 					case <-time.After(wsTimeout):
+						waitExpired()
 						return "timeout waiting for the close frame"
 					}
 				}
@@ -651,6 +652,7 @@ func (s *wsDecoderServer) realWSDecode(e WSEnv) string {
 			}
 			return c
 		case <-time.After(wsTimeout):
+			waitExpired()
 			return "timeout"
 		}
 	}
